@@ -16,28 +16,46 @@ LIN_P1 = [
     ("P1.todo", "forall(k, i, n, domains[k, MIN] == old(domains)[k, MIN] and domains[k, MAX] == old(domains)[k, MAX])"),
 ]
 
+# P5 (exact hull) for a ghost coordinate kk: the witness puts every other variable at its cheapest corner and kk at the bound under test
+OD = "old(domains)"
+CORNER_LEQ = f"ite(parameters[j] > 0, {OD}[j, MIN], {OD}[j, MAX])"
+W_LEQ = lambda b: f"ite(j == kk, domains[kk, {b}], {CORNER_LEQ})"
+P5_LEQ = [(f"P5.{b.lower()}", f"implies(result != PROP_INCONSISTENCY, let(W, arr(j, n, {W_LEQ(b)}), inbox(W, {OD}, n) and @R(W)))") for b in ("MIN", "MAX")]
+P5_LEQ_HINTS = [f"lemma_sum_diff_one(j, 0, n, minterm(parameters, {OD}, j), parameters[j] * ({W_LEQ(b)}), kk)" for b in ("MIN", "MAX")] + \
+               [f"lemma_sum_le(j, 0, n, parameters[j] * ({W_LEQ(b)}), maxterm(parameters, {OD}, j))" for b in ("MIN", "MAX")]
+
 propagator(REG, "nucs/propagators/affine_leq_propagator.py::compute_domains_affine_leq",
-    rel="sum(j, 0, n, parameters[j] * @T[j]) <= parameters[n]", n_min=1, params="i32[m]", requires=["m == n + 1"],
+    rel="sum(j, 0, n, parameters[j] * @T[j]) <= parameters[n]", n_min=1, params="i32[m]", requires=["m == n + 1", "0 <= kk and kk < n"],
+    ghost={"kk": "int"}, p5=P5_LEQ,
     loops={1: L1, 2: dict(index="i", fingerprint="for enumerate(parameters[:-1])", invariant=LIN_P1 + [
         ("P3.corner", "forall(k, 0, n, implies(parameters[k] > 0, domains[k, MIN] == old(domains)[k, MIN]) and implies(parameters[k] < 0, domains[k, MAX] == old(domains)[k, MAX]))"),
         ("P2.tuple", "implies(inbox(t, old(domains), n) and sum(j, 0, n, parameters[j] * t[j]) <= parameters[n], forall(k, 0, i, domains[k, MIN] <= t[k] and t[k] <= domains[k, MAX]))"),
+        ("P5.tight", "forall(k, 0, i, implies(parameters[k] > 0, parameters[k] * (domains[k, MAX] - old(domains)[k, MIN]) <= domain_sum_max) and implies(parameters[k] < 0, parameters[k] * (domains[k, MIN] - old(domains)[k, MAX]) <= domain_sum_max))"),
     ], hints=["lemma_sum_le(j, 0, n, minterm(parameters, old(domains), j), parameters[j] * t[j])"])},
     hints=["lemma_sum_le(j, 0, n, minterm(parameters, old(domains), j), parameters[j] * t[j])",
            "lemma_sum_le(j, 0, n, parameters[j] * u[j], maxterm(parameters, old(domains), j))",
            "lemma_sum_le(j, 0, n, minterm(parameters, domains, j), minterm(parameters, old(domains), j))",
-           "lemma_sum_le(j, 0, n, parameters[j] * domains[j, MIN], minterm(parameters, domains, j))"],
+           "lemma_sum_le(j, 0, n, parameters[j] * domains[j, MIN], minterm(parameters, domains, j))"] + P5_LEQ_HINTS,
     arities=[{"n": 1, "m": 2}, {"n": 2, "m": 3}, {"n": 3, "m": 4}])
 
+CORNER_GEQ = f"ite(parameters[j] > 0, {OD}[j, MAX], {OD}[j, MIN])"
+W_GEQ = lambda b: f"ite(j == kk, domains[kk, {b}], {CORNER_GEQ})"
+P5_GEQ = [(f"P5.{b.lower()}", f"implies(result != PROP_INCONSISTENCY, let(W, arr(j, n, {W_GEQ(b)}), inbox(W, {OD}, n) and @R(W)))") for b in ("MIN", "MAX")]
+P5_GEQ_HINTS = [f"lemma_sum_diff_one(j, 0, n, maxterm(parameters, {OD}, j), parameters[j] * ({W_GEQ(b)}), kk)" for b in ("MIN", "MAX")] + \
+               [f"lemma_sum_le(j, 0, n, minterm(parameters, {OD}, j), parameters[j] * ({W_GEQ(b)}))" for b in ("MIN", "MAX")]
+
 propagator(REG, "nucs/propagators/affine_geq_propagator.py::compute_domains_affine_geq",
-    rel="sum(j, 0, n, parameters[j] * @T[j]) >= parameters[n]", n_min=1, params="i32[m]", requires=["m == n + 1"],
+    rel="sum(j, 0, n, parameters[j] * @T[j]) >= parameters[n]", n_min=1, params="i32[m]", requires=["m == n + 1", "0 <= kk and kk < n"],
+    ghost={"kk": "int"}, p5=P5_GEQ,
     loops={1: L1, 2: dict(index="i", fingerprint="for enumerate(parameters[:-1])", invariant=LIN_P1 + [
         ("P3.corner", "forall(k, 0, n, implies(parameters[k] > 0, domains[k, MAX] == old(domains)[k, MAX]) and implies(parameters[k] < 0, domains[k, MIN] == old(domains)[k, MIN]))"),
         ("P2.tuple", "implies(inbox(t, old(domains), n) and sum(j, 0, n, parameters[j] * t[j]) >= parameters[n], forall(k, 0, i, domains[k, MIN] <= t[k] and t[k] <= domains[k, MAX]))"),
+        ("P5.tight", "forall(k, 0, i, implies(parameters[k] > 0, parameters[k] * (old(domains)[k, MAX] - domains[k, MIN]) <= 0 - domain_sum_min) and implies(parameters[k] < 0, parameters[k] * (old(domains)[k, MIN] - domains[k, MAX]) <= 0 - domain_sum_min))"),
     ], hints=["lemma_sum_le(j, 0, n, parameters[j] * t[j], maxterm(parameters, old(domains), j))"])},
     hints=["lemma_sum_le(j, 0, n, parameters[j] * t[j], maxterm(parameters, old(domains), j))",
            "lemma_sum_le(j, 0, n, minterm(parameters, old(domains), j), parameters[j] * u[j])",
            "lemma_sum_le(j, 0, n, maxterm(parameters, old(domains), j), maxterm(parameters, domains, j))",
-           "lemma_sum_le(j, 0, n, maxterm(parameters, domains, j), parameters[j] * domains[j, MIN])"],
+           "lemma_sum_le(j, 0, n, maxterm(parameters, domains, j), parameters[j] * domains[j, MIN])"] + P5_GEQ_HINTS,
     arities=[{"n": 1, "m": 2}, {"n": 2, "m": 3}, {"n": 3, "m": 4}])
 
 L3 = dict(index="i", fingerprint="for enumerate(parameters[:-1])", invariant=[
